@@ -87,4 +87,15 @@ void h_query_datalen(void)
 	__CPROVER_assert(r >= -1 && r <= (int)ql, "query_datalen result range");
 	VERIF_REACH();
 }
+
+/* ---- recent_seqno (C01: duplicate / old-fragment rejection window): "current or up to 3 back", modulo 8 --------- */
+void h_recent_seqno(void)
+{
+	int ours = nondet_int(), got = nondet_int();
+	__CPROVER_assume(ours >= 0 && ours <= 7 && got >= 0 && got <= 7);       /* 3-bit sequence numbers at every call site */
+	int r = recent_seqno(ours, got);
+	int back = (ours - got + 8) % 8;                                        /* how many packets back the received number is */
+	__CPROVER_assert(r == (back <= 3), "recent_seqno: 1 exactly for the current sequence number and the three before it (modulo 8), 0 for the four newer ones");
+	VERIF_REACH();
+}
 #endif
